@@ -121,3 +121,39 @@ package values
 //@ lemma lt_irreflexive_ints [C09] (a any): isint(kind(values.ToLiquid(a))) ==> !values.Less(a, a)
 //@ lemma lt_eq_exclusive_ints [C09] (a any, b any): isint(kind(values.ToLiquid(a))) && isint(kind(values.ToLiquid(b))) ==> !(values.Less(a, b) && values.Equal(a, b))
 //@ lemma trichotomy_ints [C09] (a any, b any): isint(kind(values.ToLiquid(a))) && isint(kind(values.ToLiquid(b))) ==> values.Less(a, b) || values.Equal(a, b) || values.Less(b, a)
+
+// ---- sorting helpers (C15, C03): they permute the given slice in place and touch nothing else
+//@ func values.Sort
+//@ props C15 C03 C01
+//@ panics nothing
+//@ assigns S$Val
+//@ ensures only: onlybase("S$Val", data)
+
+//@ func values.SortByProperty
+//@ props C15 C03 C01
+//@ panics nothing
+//@ assigns S$Val
+//@ ensures only: onlybase("S$Val", data)
+
+//@ func (values.genericSortable).Swap
+//@ props C15 C03 C01
+//@ panics nothing
+//@ assigns S$Val
+//@ requires inrange: 0 <= i && i < len(s) && 0 <= j && j < len(s)
+//@ ensures swapped: s[i] == old(s[j]) && s[j] == old(s[i])
+//@ ensures rest: forall(k, 0, len(s), k != i && k != j ==> s[k] == old(s[k]))
+//@ ensures only: onlybase("S$Val", s)
+
+//@ func (values.genericSortable).Len
+//@ pure
+//@ props C15 C01
+//@ ensures def: result == len(s)
+
+//@ func (values.sortableByProperty).Swap
+//@ props C15 C03 C01
+//@ panics nothing
+//@ assigns S$Val
+//@ requires inrange: 0 <= i && i < len(s.data) && 0 <= j && j < len(s.data)
+//@ ensures swapped: s.data[i] == old(s.data[j]) && s.data[j] == old(s.data[i])
+//@ ensures rest: forall(k, 0, len(s.data), k != i && k != j ==> s.data[k] == old(s.data[k]))
+//@ ensures only: onlybase("S$Val", s.data)
